@@ -850,47 +850,72 @@ End Bilateral.
 (* ------------------------------------------------------------------ pipelines *)
 
 Definition env_wf (V : env) : Prop := cfg_wf (e_cfg V) /\ 1 <= e_bwta V /\ 1 <= e_bmed V /\ 1 <= e_bbil V.
-Definition step_wf (s : step) : Prop :=
-  match s with SMedian w => 0 <= w | SBilateral sigma _ _ => 0 <= bil_win sigma | _ => True end.
+Definition step_wf (G : cfg) (s : step) : Prop :=
+  match s with
+  | SMc m => meas_wf G m
+  | SCbca dist _ => 1 <= dist
+  | SMedian w => 0 <= w
+  | SBilateral sigma _ _ => 0 <= bil_win sigma
+  | _ => True
+  end.
 
-Lemma step_D_wf : forall G s, cfg_wf G -> step_wf s -> rad_wf (step_D G s) /\ rad_wf (step_M G s).
+Lemma step_rad_wf : forall G s, cfg_wf G -> step_wf G s ->
+  rad_wf (step_S G s) /\ rad_wf (step_I G s) /\ rad_wf (step_M G s).
 Proof.
   intros G s Hwf Hs. pose proof (h0 G Hwf) as Hh.
   assert (0 <= dspan G) by (unfold dspan, dpos, dneg; lia).
-  destruct s; cbn [step_D step_M step_wf] in *; unfold rad_wf, rad_mc, rad0, rad_filter, rad_xcheck, rad_xcheck_margin;
+  destruct s; unfold step_S, step_I, step_M; cbn [forget kstep_S kstep_I kstep_M step_wf] in *;
+    unfold rad_wf, rad_mc, rad0, rad_filter, rad_xcheck, rad_xcheck_margin, rad_cbca_S, rad_cbca_I, rad_cbca_M, cbca_arm;
     cbn [rho lam mu]; lia.
 Qed.
 
-Lemma step_local : forall V s, env_wf V -> step_wf s ->
-  local (step_side (e_cfg V) s) (step_op V s) (step_D (e_cfg V) s) (step_M (e_cfg V) s).
+(* no step rewrites the images *)
+Lemma step_keeps : forall V s, keeps img_of (step_op V s).
+Proof. intros V s F r c. destruct s; reflexivity. Qed.
+
+Lemma step_local : forall V s, env_wf V -> step_wf (e_cfg V) s ->
+  local2 img_of (step_side (e_cfg V) s) (step_op V s) (step_S (e_cfg V) s) (step_I (e_cfg V) s) (step_M (e_cfg V) s).
 Proof.
-  intros V s (Hc & Hb1 & Hb2 & Hb3) Hs. destruct s; cbn [step_side step_op step_D step_M].
+  intros V s (Hc & Hb1 & Hb2 & Hb3) Hs.
+  destruct s; unfold step_S, step_I, step_M; cbn [step_side step_op forget kstep_S kstep_I kstep_M step_wf] in *.
   - apply mc_step_local; assumption.
-  - apply wta_step_local; assumption.
-  - apply refine_step_local.
-  - apply median_step_local; assumption.
-  - apply bilateral_step_local; assumption.
-  - apply xcheck_step_local; assumption.
+  - apply cbca_step_local; assumption.
+  - apply local_local2. apply wta_step_local; assumption.
+  - apply local_local2. apply refine_step_local.
+  - apply local_local2. apply median_step_local; assumption.
+  - apply local_local2. apply bilateral_step_local; assumption.
+  - apply local_local2. apply xcheck_step_local; assumption.
 Qed.
 
-Lemma pipe_chain : forall V steps, env_wf V -> Forall step_wf steps ->
-  chain (pipe_side V steps) (map (step_op V) steps) (fst (pipe_rad (e_cfg V) steps)) (snd (pipe_rad (e_cfg V) steps)).
+Lemma pipe_chain : forall V steps, env_wf V -> Forall (step_wf (e_cfg V)) steps ->
+  chain2 img_of (pipe_side V steps) (map (step_op V) steps)
+    (r3_S (pipe_rad3 (e_cfg V) steps)) (r3_I (pipe_rad3 (e_cfg V) steps)) (r3_M (pipe_rad3 (e_cfg V) steps)).
 Proof.
   intros V steps HV. induction 1 as [|s rest Hs Hrest IH].
   - cbn. constructor.
-  - cbn [map pipe_side pipe_rad]. destruct (pipe_rad (e_cfg V) rest) as [Ds Ms] eqn:Er. cbn [fst snd] in *.
-    destruct (step_D_wf (e_cfg V) s (proj1 HV) Hs).
-    constructor; try assumption. apply step_local; assumption.
+  - cbn [map pipe_side]. unfold pipe_rad3 in *. cbn [map kpipe_rad3].
+    destruct (kpipe_rad3 (e_cfg V) (map forget rest)) as [[DSs DIs] Ms] eqn:Er. unfold r3_S, r3_I, r3_M in *. cbn [fst snd] in *.
+    destruct (step_rad_wf (e_cfg V) s (proj1 HV) Hs) as (W1 & W2 & W3).
+    apply (chain2_cons img_of (step_side (e_cfg V) s) (step_op V s) (step_S (e_cfg V) s) (step_I (e_cfg V) s) (step_M (e_cfg V) s));
+      try assumption.
+    + apply step_keeps.
+    + apply step_local; assumption.
 Qed.
 
-Theorem pipe_local : forall V steps, env_wf V -> Forall step_wf steps ->
+(* MAIN: every pipeline of local steps is local, in the two-cone sense ... *)
+Theorem pipe_local2 : forall V steps, env_wf V -> Forall (step_wf (e_cfg V)) steps ->
+  local2 img_of (pipe_side V steps) (run_pipe (map (step_op V) steps))
+    (r3_S (pipe_rad3 (e_cfg V) steps)) (r3_I (pipe_rad3 (e_cfg V) steps)) (r3_M (pipe_rad3 (e_cfg V) steps)).
+Proof. intros. apply pipeline_local2. apply pipe_chain; assumption. Qed.
+
+(* ... hence a function of the data of ONE cone, the larger of the two *)
+Theorem pipe_local : forall V steps, env_wf V -> Forall (step_wf (e_cfg V)) steps ->
   local (pipe_side V steps) (run_pipe (map (step_op V) steps))
         (fst (pipe_rad (e_cfg V) steps)) (snd (pipe_rad (e_cfg V) steps)).
-Proof. intros. apply pipeline_local. apply pipe_chain; assumption. Qed.
-
-Lemma pipe_rad_forget : forall G steps, pipe_rad G steps = kpipe_rad G (map forget steps).
 Proof.
-  induction steps as [|s rest IH]; cbn [pipe_rad kpipe_rad map]; [reflexivity|].
-  rewrite IH. destruct (kpipe_rad G (map forget rest)). destruct s; reflexivity.
+  intros V steps HV Hs. unfold pipe_rad, kpipe_rad. cbn [fst snd].
+  apply (local2_local _ _ _ img_of). apply pipe_local2; assumption.
 Qed.
 
+Lemma pipe_rad_forget : forall G steps, pipe_rad G steps = kpipe_rad G (map forget steps).
+Proof. reflexivity. Qed.
